@@ -46,8 +46,10 @@ def intersect_halfplanes(halfplanes):
     points : list
         Points of the polygon.
     """
-    # reserve more space than required, there might be duplicates
-    points = np.empty((3 * len(halfplanes), 2))
+    # reserve space for all pairwise intersections, there might be duplicates
+    # when more than two lines meet in one point
+    n_halfplanes = len(halfplanes)
+    points = np.empty((n_halfplanes * (n_halfplanes - 1) // 2 + 1, 2))
     n_intersections = 0
     for i in range(len(halfplanes)):
         for j in range(i + 1, len(halfplanes)):
